@@ -110,6 +110,7 @@ def run(ctx: Ctx, env):
             continue
         ci = repo.classes[cls]
         interp = Interp(repo, env.schema, kf.kinds)
+        interp.run_exc_ctors = True  # the exception is built with the arguments the hook really passes
 
         def setup(it, fn=fn, ci=ci, label=label):
             return ci.module, fn, [ObjV(ci.qual, {}, label), Sym("token", label)], {}, ci.qual
